@@ -204,6 +204,7 @@ def run(ck, F):
     tables8 = {g['q']: g for g in F.globals if g['loc'].split(':')[0] in PRINTER_FILES and 'init' in g and (g.get('init') or {}).get('k') == 'initlist'}
     n_tc = 0
     for f in sorted(pf, key=lambda f: f['id']):
+        dom8 = None
         for n in walk(f.get('body')):
             if n.get('k') != 'index' or 'cv' not in _sc8(n.get('idx') or {}):
                 continue
@@ -223,23 +224,26 @@ def run(ck, F):
                 rows8.append(bytes(lits[0].get('bytes', [])) if len(lits) == 1 else None)
             sel = row.get('idx') or {}
             en = _enum_t(sel)
+            if dom8 is None:
+                import domguards as _dg
+                dom8 = _dg.dominating(f)
             cand = list(range(len(rows8)))
             if en is not None:
                 vals = sorted(int(x['value']) for x in F.enums[en].get('enumerators', []))
                 cand = [v for v in vals]
-                # enumerators sent away earlier: `if (<same value> == K) { ...; return; }`
-                for m in walk(f.get('body')):
-                    if m.get('k') == 'if' and m.get('ln', 0) <= n.get('ln', 0) and any(x.get('k') == 'return' for x in walk(m.get('then'))):
-                        c = _sc8(m.get('c') or {})
-                        ops = None
-                        if c.get('k') == 'binop' and c.get('op') == '==':
-                            ops = (c.get('l'), c.get('r'))
-                        elif c.get('k') == 'call' and (c.get('callee') or {}).get('name') == 'operator==' and len(c.get('args') or []) == 2:
-                            ops = tuple(c['args'])
-                        if ops:
-                            for a_, b_ in (ops, ops[::-1]):
-                                if _bare8(a_) == _bare8(sel) and 'cv' in _sc8(b_ or {}):
-                                    cand = [v for v in cand if v != int(_sc8(b_)['cv'])]
+                # enumerators excluded by the conditions that dominate the read (a test-and-return before it, the branch it sits in)
+                for c, truth in dom8.get(id(n), []):
+                    c = _sc8(c)
+                    ops, eq = None, None
+                    if c.get('k') == 'binop' and c.get('op') in ('==', '!='):
+                        ops, eq = (c.get('l'), c.get('r')), c['op'] == '=='
+                    elif c.get('k') == 'call' and (c.get('callee') or {}).get('name') in ('operator==', 'operator!=') and len(c.get('args') or []) == 2:
+                        ops, eq = tuple(c['args']), c['callee']['name'] == 'operator=='
+                    if ops:
+                        for a_, b_ in (ops, ops[::-1]):
+                            if _bare8(a_) == _bare8(sel) and 'cv' in _sc8(b_ or {}):
+                                K_ = int(_sc8(b_)['cv'])
+                                cand = [v for v in cand if (v == K_) == (eq == truth)]
             n_tc += 1
             bad = []
             for v in cand:
